@@ -528,6 +528,9 @@ class C17Sched(object):
             # races on process-wide state: aim at the very steps that write to it
             write_points = sut_write_points
             radii = [0, 1, 2, 3]
+        elif any(sut_write_points) and ch.chance(1, 2, 'aim-at-process-state'):
+            write_points = [sorted(set(a) | set(b)) for a, b in zip(write_points, sut_write_points)]
+            radii = [0, 1, 3, 10]
             res.counters['runs_aiming_at_process_state_writes'] += 1
         else:
             radii = [1, 3, 10, 30]
@@ -643,7 +646,7 @@ class C17Sched(object):
             sig = tuple((a, cn, ln, b) for (_st, a, b, cn, ln) in switches)
             res.key(tpl, tuple(tuple(p) for p in programs), sig, nontrivial=bool(overlap[0]))
             for (_st, a, b, cn, ln) in switches[:4]:
-                res.counters['stopped_in:' + cn] += 0   # keep counters small; detailed in samples
+                res.counters['stopped_in:' + cn] += 1   # where the first pre-empted threads were parked
             res.event('trace', s.trace, snapshot.freeze(outcomes))
             trace_txt = ['step {0}: T{1}->T{2} at {3}:{4}'.format(*t) for t in s.trace[:12]]
             res.sample = dict(template=tpl, params=spec['params'], programs=programs, strategy=sname,
@@ -736,7 +739,7 @@ def check(tier, budget=None, minimise=True):
         distinct_switch_signatures_all=len(t.distinct_all),
         runs_per_hour=int(t.runs / max(wall, 1e-6) * 3600),
         logical_steps=t.steps,
-        logical_steps_note='simulated time = sigtools (optionally inspect.py) line events executed under the scheduler',
+        logical_steps_note='simulated time = yield points passed under the scheduler: sigtools line events, plus (per run, as drawn) returns of calls made from sigtools lines and lines of weakref.py / inspect.py',
         counters=dict(sorted(t.counters.items())),
         capped_runs=t.capped,
         known_findings_reported=known,
